@@ -493,8 +493,8 @@ pub fn run(ctx: &mut Ctx) {
     ];
     let _ = pool();
     let t = ctx.tier;
-    ctx.campaign("history", CampaignCfg::new(t.pick(4_000, 150_000)).shards(16), || strategy(120, false), run_case);
-    ctx.campaign("fill-heavy", CampaignCfg::new(t.pick(1_500, 50_000)).shards(16), || strategy(500, true), run_case);
+    ctx.campaign("history", CampaignCfg::new(t.pick(4_000, 300_000)).shards(16), || strategy(120, false), run_case);
+    ctx.campaign("fill-heavy", CampaignCfg::new(t.pick(1_500, 100_000)).shards(16), || strategy(500, true), run_case);
     let sweeps: Vec<BitSweep> = (0..t.pick(24u64, 400))
         .map(|i| BitSweep {
             table_seed: crate::engine::mix(ctx.seed, i),
